@@ -161,6 +161,17 @@ def _results_for(kind, payload):
         data, _ = c14.build(payload["case"])
         fmt = payload["case"]["format"]
         return PROFILES[fmt]["ext"] if fmt in PROFILES else fmt, data
+    if kind == "bundle":            # several image-bearing documents in one ZIP: an input with more than one result, each with binary fields
+        import zipfile
+        buf = io.BytesIO()
+        with zipfile.ZipFile(buf, "w", zipfile.ZIP_DEFLATED) as z:
+            for i, c in enumerate(payload["cases"]):
+                data, _ = c14.build(c)
+                fmt = c["format"]
+                z.writestr(f"dir/member{i + 1}." + (PROFILES[fmt]["ext"] if fmt in PROFILES else fmt), data)
+        return "zip", buf.getvalue()
+    if kind == "text":              # plain-text inputs given as bytes (line-ending and BOM variants)
+        return payload["ext"], bytes.fromhex(payload["hex"])
     raise ValueError(kind)
 
 
@@ -201,9 +212,8 @@ def judge_case(case, with_cli=False):
             for flags in (("--json",), ("--json", "--binary"), ("--json-unit",), ("--json-unit", "--binary")):
                 rc, out, err = _cli_json(p, *flags)
                 inc = "--binary" in flags
-                results2 = _extract(ext, data)
-                for r in results2:
-                    r.get_metadata().populate_from_path(p)
+                import sharepoint2text
+                results2 = list(sharepoint2text.read_file(p))      # the entry point the CLI itself uses
                 if "--json" in flags:
                     want = [serialize_extraction(r, include_binary=inc) for r in results2]
                 else:
@@ -434,6 +444,15 @@ def results_shard(ctx: Ctx):
         if i % ctx.nshards == ctx.shard:
             hyp_search(ctx, f"res-img-{fmt}", c14.cases(fmt).map(lambda c: {"kind": "images", "case": c}), ev, n, part, model_shrink=False)
             hyp_search(ctx, f"cli-img-{fmt}", c14.cases(fmt).map(lambda c: {"kind": "images", "case": c}), lambda c: ev(c, True), max(3, n // 8), part, model_shrink=False)
+    if ctx.shard == 0:
+        two = st.tuples(st.sampled_from(["docx", "pptx", "odt", "epub"]), st.sampled_from(["docx", "xlsx", "odp", "rtf"])).flatmap(lambda t: st.tuples(c14.cases(t[0]), c14.cases(t[1])))
+        hyp_search(ctx, "cli-bundle", two.map(lambda t: {"kind": "bundle", "cases": list(t), "features": ["multi-result"]}), lambda c: ev(c, True), max(6, n // 3), part, model_shrink=False)
+    if ctx.shard == 1 % ctx.nshards:
+        eol = st.lists(st.tuples(st.sampled_from(["alpha line", "beta;line", "", "  indented", "Zeile mit ä", "tab\tsep"]), st.sampled_from(["\n", "\r\n", "\r", "\r\r\n", "\n\r", ""])), min_size=1, max_size=5)
+        txt = st.tuples(st.sampled_from(["txt", "md", "csv", "tsv", "json"]), st.sampled_from(["", "\ufeff"]), eol, st.sampled_from(["utf-8", "utf-8", "utf-16", "latin-1"])).map(
+            lambda t: {"kind": "text", "ext": t[0], "hex": (t[1] + "".join(a + b for a, b in t[2])).encode(t[3], "replace").hex(), "features": ["line-endings"]})
+        hyp_search(ctx, "res-text", txt, ev, n * 8, part, model_shrink=False)
+        hyp_search(ctx, "cli-text", txt, lambda c: ev(c, True), n, part, model_shrink=False)
     return part
 
 
